@@ -66,6 +66,12 @@ func c07Universe(c *Ctx) []*TS {
 		tTuple(tsStr, tsStr, tsStr), tTuple(tsStr, tsStr, tsNum), tTuple(tsStr, tsStr, tsStr, tsStr), tTuple(tsStr, tsStr, tsStr, tsNum),
 		tTuple(tsNum, tsStr, tsStr, tsStr), tTuple(tsStr, tsNum, tsStr, tsStr), tTuple(tsStr, tsStr, tsNum, tsStr),
 	)
+	// ... plus attribute names that need care when written as text: quotes, backslashes,
+	// control characters, DEL, line separators, characters beyond the BMP, the last BMP code
+	// points, an empty name
+	for _, n := range []string{"", "a\"b", "back\\slash", "tab\there", "bell\a", "nul\x00", "del\x7f", "ls\u2028ps\u2029", "\U0001F600", "x\U0001F44D\U0001F3FDy", "\uffff", "\ufffd", "\U0010FFFF", "</script>", "a b", "\u00e9\U0001D11E"} {
+		u = append(u, tObj(at(n, tsStr)), tObj(ato(n, tsNum), at("a", tsStr)), tList(tObj(at(n, tsDyn))), tTuple(tsStr, tObj(ato(n, tsStr))))
+	}
 	// de-duplicate by canonical string, keep first (simplest-first order);
 	// NFD/NFC spellings of the same type are deliberately kept apart by spelling.
 	seen := map[string]bool{}
@@ -99,7 +105,7 @@ func runC07(c *Ctx) {
 	canonNO := make([]string, len(u))
 	for i, t := range u {
 		built[i] = t.Build()
-		built2[i] = t.Build()
+		built2[i] = t.BuildAlt()
 		canon[i] = t.Canon()
 		canonNO[i] = t.CanonNoOpt()
 	}
